@@ -62,7 +62,10 @@ SetEv(h, self, k, above) ==
        (IF h[c].t = "I" THEN SetEv(h, c, k, pin)
         ELSE BSEv(c, h[c].ks, k, 0, Len(h[c].ks), pin \cup {c}))
 
-\* _BTree_set without a value (delete).  [ev, found, clen]: clen = this node's length afterwards
+\* _BTree_set without a value (delete).  The key is compared with the separator of its slot *before*
+\* the descent (every level with min > 0), so that no comparison follows a mutation.
+\* Deviation "SepCmpAfterChild" (the code before the fix of D15): the comparison is made on the way
+\* up, only when the key was found and the child is still non-empty.
 RECURSIVE DelEv(_, _, _, _)
 DelEv(h, self, k, above) ==
   LET s == h[self]
@@ -70,14 +73,15 @@ DelEv(h, self, k, above) ==
   IF Len(s.kids) = 0 THEN [ev |-> <<>>, found |-> FALSE, len |-> 0]
   ELSE LET i == TreeSearch(s, k)
            c == s.kids[i]
-           down == TSEv(self, s.seps, k, 0, Len(s.kids), pin)
+           sepev == IF i > 1 THEN <<Ev(self, k, s.seps[i], TRUE, pin)>> ELSE <<>>
+           down == TSEv(self, s.seps, k, 0, Len(s.kids), pin) \o (IF "SepCmpAfterChild" \in Dev THEN <<>> ELSE sepev)
            r == IF h[c].t = "I" THEN DelEv(h, c, k, pin)
                 ELSE [ev |-> BSEv(c, h[c].ks, k, 0, Len(h[c].ks), pin \cup {c}),
                       found |-> Has(h[c].ks, k),
                       len |-> Len(h[c].ks) - (IF Has(h[c].ks, k) THEN 1 ELSE 0)]
        IN IF ~r.found THEN [ev |-> down \o r.ev, found |-> FALSE, len |-> Len(s.kids)]
           ELSE [ev |-> down \o r.ev \o
-                       (IF i > 1 /\ r.len > 0 THEN <<Ev(self, k, s.seps[i], TRUE, pin)>> ELSE <<>>),
+                       (IF "SepCmpAfterChild" \in Dev /\ r.len > 0 THEN sepev ELSE <<>>),
                 found |-> TRUE,
                 len |-> Len(s.kids) - (IF r.len = 0 THEN 1 ELSE 0)]
 
@@ -85,6 +89,52 @@ OpEv(h, op, k) ==
   IF op = "get" THEN GetEv(h, Root, k)
   ELSE IF op = "set" THEN SetEv(h, Root, k, {})
   ELSE DelEv(h, Root, k, {}).ev
+
+(* C14: the n-th comparison of a call raises.  What is left behind:                          *)
+(*  - every comparison of get / set / delete precedes the first mutation, so the tree is     *)
+(*    as before (FaultAtomic holds by construction of the event sequence -- the claim the    *)
+(*    conformance run checks on the real code for every n);                                  *)
+(*  - with "SepCmpAfterChild" the comparison on the way up at node f fails after the child   *)
+(*    already changed: f and all its ancestors skip their own work (DelFail).                *)
+RECURSIVE DelFail(_, _, _, _)
+DelFail(h, self, k, f) ==       \* [h, st]: st = -1 once the failure has happened
+  LET s == h[self] IN
+  IF Len(s.kids) = 0 THEN [h |-> h, st |-> 0] ELSE
+  LET i   == TreeSearch(s, k)
+      cid == s.kids[i]
+      c   == h[cid]
+      r == IF c.t = "I" THEN DelFail(h, cid, k, f) ELSE DelR(h, cid, k)
+      \* (a leaf child: the plain leaf-level removal of DelR applied to the leaf's parent is not
+      \*  available separately; the leaf case is handled below)
+  IN IF c.t = "L"
+       THEN IF self = f /\ i > 1 /\ Has(c.ks, k) /\ Len(c.ks) > 1
+              THEN [h |-> Upd(h, cid, Leaf(RemoveAt(c.ks, Pos(c.ks, k)), RemoveAt(c.vs, Pos(c.ks, k)), c.nx)), st |-> -1]
+              ELSE DelR(h, self, k)
+       ELSE IF r.st = -1 THEN r
+       ELSE IF r.st = 0 THEN r
+       ELSE IF self = f /\ i > 1 /\ NLen(r.h[cid]) > 0 THEN [h |-> r.h, st |-> -1]   \* child done, own work skipped
+       ELSE \* no failure here: finish this level exactly as DelR does, given the child's result
+            LET h1 == r.h  c1 == h1[cid]  clen == NLen(c1)
+                s1 == IF i > 1 /\ clen > 0 /\ s.seps[i] = k
+                        THEN Inner(s.kids, [s.seps EXCEPT ![i] = h1[c1.fb].ks[1]], s.fb) ELSE s
+                h2  == IF r.st = 2 /\ i > 1 THEN DeleteNext(h1, LastBucket(h1, s.kids[i-1])) ELSE h1
+                s2  == IF r.st = 2 /\ i = 1 THEN Inner(s1.kids, s1.seps, h1[cid].fb) ELSE s1
+                st2 == IF r.st = 2 /\ i > 1 THEN 1 ELSE r.st
+            IN IF clen > 0 THEN [h |-> Upd(h2, self, s2), st |-> st2]
+               ELSE LET kids4 == RemoveAt(s2.kids, i)
+                        seps4 == IF i = 1 /\ Len(s2.seps) > 1 THEN <<0>> \o SubSeq(s2.seps, 3, Len(s2.seps)) ELSE RemoveAt(s2.seps, i)
+                    IN [h |-> Upd(h2, self, Inner(kids4, seps4, s2.fb)), st |-> st2]
+\* heap predicates on an argument (BTreeImpl's are on the variable)
+HChain(h) == ChainIds(h, h[Root].fb, Cardinality(DOMAIN h) + 1) = Descend(h, Root)
+HNoEmpty(h) == \A id \in Reach(h, {Root}) : id # Root => NLen(h[id]) > 0
+\* after a failed comparison the tree holds the previous contents or the completed change, and is sound
+FaultAtomic ==
+  "SepCmpAfterChild" \in Dev =>
+    \A k \in Keys : \A f \in DOMAIN heap :
+      LET r == DelFail(heap, Root, k, f)
+          h2 == GC(r.h) IN
+      r.st = -1 => /\ HChain(h2) /\ HNoEmpty(h2)
+                   /\ Contents(h2) \in {Contents(heap), Contents(GC(DelR(heap, Root, k).h))}
 
 \* the node a comparison reads is pinned while it is read
 ReadPinned == \A op \in {"get", "set", "del"} : \A k \in Keys \cup {0, 99} :
@@ -103,6 +153,10 @@ EvOut(h, ev) == [j \in 1..Len(ev) |->
     pinned |-> {PathFromC(h, Root, x) : x \in ev[j].pinned}]]
 \* spec -> code: expected events of every call on every shape (printed once per distinct state)
 MaxKeyC == CHOOSE x \in Keys : \A y \in Keys : y <= x
+DoneTree(h, op, k) ==
+  IF op = "set" THEN Proj(GC(SetR(h, Root, k, 1, FALSE).h), Root)
+  ELSE LET r == DelR(h, Root, k) IN Proj(GC(IF r.st = 0 THEN h ELSE r.h), Root)
 DumpEv == PrintT(<<"CE", ToJson([tree |-> Proj(heap, Root),
-            calls |-> [op \in {"get", "set", "del"} |-> [k \in 1..(MaxKeyC + 1) |-> EvOut(heap, OpEv(heap, op, k))]]])>>)
+            calls |-> [op \in {"get", "set", "del"} |-> [k \in 1..(MaxKeyC + 1) |-> EvOut(heap, OpEv(heap, op, k))]],
+            done |-> [op \in {"set", "del"} |-> [k \in 1..(MaxKeyC + 1) |-> DoneTree(heap, op, k)]]])>>)
 =============================================================================
